@@ -36,6 +36,18 @@ func readXmlEnt(r io.Reader) (xsel.Cursor, error) {
 	return xsel.ReadXml(r, func(d *xml.Decoder) { d.Entity = map[string]string{"ent": "EV"} })
 }
 
+// readXmlEntAdd declares the entity by adding to whatever map the decoder
+// already carries (an option written by a user who wants to keep entities
+// installed by earlier options).
+func readXmlEntAdd(r io.Reader) (xsel.Cursor, error) {
+	return xsel.ReadXml(r, func(d *xml.Decoder) {
+		if d.Entity == nil {
+			d.Entity = map[string]string{}
+		}
+		d.Entity["ent"] = "EV"
+	})
+}
+
 // xmlDetects answers one bit: does a bare encoding/xml decoder (same charset
 // reader) report an error before EOF on these bytes?
 func xmlDetects(data []byte) bool { return xmlDetectsEnt(data, false) }
@@ -85,6 +97,10 @@ func XML(t *simkit.Tape, o *simkit.Outcome, full bool) {
 	xmlDetects := xmlDetects
 	if cfg.Entities {
 		readXml = readXmlEnt
+		if t.Bool(1, 2) {
+			readXml = readXmlEntAdd
+			o.Probe("custom-entity-option-adds-in-place")
+		}
 		xmlDetects = func(b []byte) bool { return xmlDetectsEnt(b, true) }
 		o.Probe("custom-entity-option")
 	}
@@ -241,6 +257,24 @@ func XML(t *simkit.Tape, o *simkit.Outcome, full bool) {
 	nc := 8 + t.Draw(16)
 	for i := 0; i < nc; i++ {
 		cor, kind := Corrupt(t, data, cfg.Encoding == "" || cfg.Encoding == "UTF-8")
+		if t.Bool(1, 8) {
+			// a reference to an entity nobody declared, in element content
+			var at []int
+			for k := 0; k+1 < len(data); k++ {
+				if data[k] == '<' && data[k+1] == '/' {
+					at = append(at, k)
+				}
+			}
+			if len(at) > 0 {
+				k := at[t.Draw(len(at))]
+				ref := []string{"&copy;", "&nbsp;", "&ent;", "&undefined;"}[t.Draw(4)] // names no generated DOCTYPE declares
+				if cfg.Entities && ref == "&ent;" {
+					ref = "&copy;"
+				}
+				cor = append(append(append([]byte{}, data[:k]...), ref...), data[k:]...)
+				kind = "undefined-entity-reference"
+			}
+		}
 		o.Fault("corrupt:" + kind)
 		var d *simio.Delivery
 		if t.Bool(1, 2) {
